@@ -563,15 +563,13 @@ func ruleSpeedText(w *World, r *Report, pfx string) {
 	}
 	bad := ""
 	units := map[string]bool{}
-	var closures []*ssa.Function
-	for _, f := range sortedFns(w.unit(root)) {
-		closures = append(closures, f.AnonFuncs...)
-	}
-	for _, clo := range closures {
-		if len(clo.Params) != 1 || clo.Signature.Results().Len() != 1 {
-			continue
+	// what a producer function prints: (unit type, ok)
+	analyse := func(clo *ssa.Function) (string, string) {
+		if len(clo.Params) == 0 || clo.Signature.Results().Len() != 1 {
+			return "", "the producer is not a func(float64) string"
 		}
-		speed := ssa.Value(clo.Params[0])
+		speed := ssa.Value(clo.Params[len(clo.Params)-1])
+		unit, why := "", ""
 		w.enumPaths(clo, pathOpts{}, func(p *Path) {
 			for _, ev := range p.Events {
 				c, ok := ev.In.(*ssa.Call)
@@ -591,13 +589,14 @@ func ruleSpeedText(w *World, r *Report, pfx string) {
 					}
 				}
 				if nArgs != 1 || arg == nil {
-					bad = "the speed text is not formatted from exactly one value"
+					why = "the speed text is not formatted from exactly one value"
 					return
 				}
 				// peel the rate wrapper and the unit conversion; what remains must be the parameter, rounding apart
 				v := arg
-				unit := "float64"
+				u := "float64"
 				wrapped := false
+			peel:
 				for i := 0; i < 10; i++ {
 					switch x := v.(type) {
 					case *ssa.Call:
@@ -612,38 +611,92 @@ func ruleSpeedText(w *World, r *Report, pfx string) {
 								continue
 							}
 						}
+						break peel
 					case *ssa.MakeInterface:
 						v = x.X
-						continue
 					case *ssa.ChangeInterface:
 						v = x.X
-						continue
 					case *ssa.Convert:
 						if tn := typeName(x.Type()); strings.HasPrefix(tn, "decor.SizeB") {
-							unit = tn
+							u = tn
 						}
 						v = x.X
-						continue
 					case *ssa.ChangeType:
 						v = x.X
-						continue
+					default:
+						break peel
 					}
-					break
 				}
 				if v != speed {
-					bad = "the speed text producer prints something other than the speed it is given (scaled or replaced: " + describeVal(Val{V: v}) + ")"
+					why = "the speed text producer prints something other than the speed it is given (scaled or replaced: " + describeVal(Val{V: v}) + ")"
 					return
 				}
-				if unit != "float64" && !wrapped {
-					bad = "a sized speed is printed without the rate suffix wrapper"
+				if u != "float64" && !wrapped {
+					why = "a sized speed is printed without the rate suffix wrapper"
 					return
 				}
-				units[unit] = true
-				if !w.closureUnderUnitCase(clo, map[string]string{"float64": "int64"}[unit]+map[string]string{"decor.SizeB1024": "decor.SizeB1024", "decor.SizeB1000": "decor.SizeB1000"}[unit]) {
-					bad = "a speed producer printing in " + unit + " is selected for a different unit argument"
-				}
+				unit = u
 			}
 		})
+		if unit == "" && why == "" {
+			why = "the producer does not format its speed"
+		}
+		return unit, why
+	}
+	// every path of the chooser: the producer returned agrees with the dynamic type of the unit argument
+	nRet := 0
+	_, over := w.enumPaths(root, pathOpts{InlineDepth: 2, Inline: w.helperInline(root)}, func(p *Path) {
+		if p.Exit != "return" || len(p.Ret) != 1 || bad != "" {
+			return
+		}
+		var clo *ssa.Function
+		switch x := p.stripR(p.Ret[0]).V.(type) {
+		case *ssa.MakeClosure:
+			clo = boundTarget(x.Fn.(*ssa.Function))
+		case *ssa.Function:
+			clo = boundTarget(x)
+		}
+		if clo == nil {
+			bad = "the chooser does not return a producer function on every path"
+			return
+		}
+		nRet++
+		unit, why := analyse(clo)
+		if why != "" {
+			bad = why
+			return
+		}
+		is := map[string]tri{}
+		for _, a := range p.Atoms {
+			c := p.cmpOf(a)
+			if c.Op != token.ILLEGAL {
+				continue
+			}
+			if ex, ok := c.X.V.(*ssa.Extract); ok && ex.Index == 1 {
+				if ta, ok := ex.Tuple.(*ssa.TypeAssert); ok {
+					if c.Pol {
+						is[typeName(ta.AssertedType)] = triTrue
+					} else {
+						is[typeName(ta.AssertedType)] = triFalse
+					}
+				}
+			}
+		}
+		switch unit {
+		case "decor.SizeB1024", "decor.SizeB1000":
+			if is[unit] != triTrue {
+				bad = "a speed producer printing in " + unit + " is selected on a path where the unit argument is not of that type"
+			}
+		default:
+			if is["decor.SizeB1024"] == triTrue || is["decor.SizeB1000"] == triTrue {
+				bad = "the plain speed producer is selected for a sized unit argument"
+			}
+		}
+		units[unit] = true
+	})
+	if over {
+		r.Undecided(rule, "speed text producers", w.pos(root.Pos()), "path cap")
+		return
 	}
 	if bad == "" && len(units) != 3 {
 		bad = fmt.Sprintf("speed producers exist for %d of the three units", len(units))
